@@ -61,24 +61,28 @@ func allChecksRaw() []*Check {
 			Quick: []Job{
 				gj("C01.tree.n6", "VerifC01", 6, "C01.nil", "C01.out", "C01.end"),
 				gj("C01.blank.n3", "VerifC01Blank", 3, "C01.blank.nil", "C01.blank.out", "C01.blank.end"),
+				gj("C01.bytes.n4", "VerifC01Bytes", 4, "C01.bytes.nil", "C01.bytes.out", "C01.bytes.end"),
 			},
 			Thorough: []Job{
 				gj("C01.tree.n8", "VerifC01", 8, "C01.nil", "C01.out", "C01.end"),
 				gj("C01.blank.n4", "VerifC01Blank", 4, "C01.blank.nil", "C01.blank.out", "C01.blank.end"),
+				gj("C01.bytes.n5", "VerifC01Bytes", 5, "C01.bytes.nil", "C01.bytes.out", "C01.bytes.end"),
 			},
-			Bounds: "forests of N item rows (quick N=6, thorough N=8): every well-formed depth sequence x every pattern of equal sibling names; names and the four branch strings are unconstrained strings of any length; both simple output routes; up to 2 blank rows at any position for N=3/4. Outside: larger N, massive mode (C10), spellings other than the canonical one (L-parse, C15).",
+			Bounds: "forests of N item rows (quick N=6, thorough N=8): every well-formed depth sequence x every pattern of equal sibling names; names and the four branch strings are unconstrained strings of any length; both simple output routes; up to 2 blank rows at any position for N=3/4; byte level: forests of 4/5 rows with concrete names and the four branch strings as 0..2 arbitrary ASCII bytes each (strings of different lengths, code that measures or slices them). Outside: larger N, massive mode (C10), spellings other than the canonical one (L-parse, C15).",
 			Assume: append([]string{parseContract}, commonAssume...),
 		},
 		{
 			ID:    "C02",
-			Files: []string{"gtree/common.go", "gtree/c02.go"},
+			Files: []string{"gtree/common.go", "gtree/c02.go", "markdown/lparse.go"},
 			Quick: []Job{
 				gj("C02.n5", "VerifC02", 5, "C02.iff/ok", "C02.iff/jump", "C02.iff/noroot", "C02.iff/nobullet", "C02.iff/emptytext", "C02.row/jump", "C02.row/nobullet", "C02.complete/output", "C02.complete/walk"),
+				{Name: "C02.LMalformed.1", Pkg: "markdown", Entry: "VerifLMalformed", N: 1, RealParse: true, Expect: []string{"LM.nobullet", "LM.emptytext", "LM.badindent", "LM.mixed", "LM.otherchar", "LM.blank"}},
 			},
 			Thorough: []Job{
 				gj("C02.n7", "VerifC02", 7, "C02.iff/ok", "C02.iff/jump", "C02.iff/noroot", "C02.iff/nobullet", "C02.iff/emptytext", "C02.row/jump", "C02.row/nobullet", "C02.complete/output", "C02.complete/walk"),
+				{Name: "C02.LMalformed.2", Pkg: "markdown", Entry: "VerifLMalformed", N: 2, RealParse: true, Expect: []string{"LM.nobullet", "LM.emptytext", "LM.badindent", "LM.mixed", "LM.otherchar", "LM.blank"}},
 			},
-			Bounds: "documents of N rows (quick 5, thorough 7): item depths in [0, prev+2] (the first indented row of a document defines the unit, so its depth is 1), at most one row of class no-bullet/empty-text at any position and depth; routes: iterator output, non-iterator output, walk (generate() shared with mkdir/verify). After the first offending row one more row is generated. Outside: several malformed rows, jumps by more than 2 (same code path), massive mode (C10).",
+			Bounds: "documents of N rows (quick 5, thorough 7): item depths in [0, prev+2] (the first indented row of a document defines the unit, so its depth is 1), at most one row of class no-bullet/empty-text at any position and depth; routes: iterator output, non-iterator output, walk (generate() shared with mkdir/verify). After the first offending row one more row is generated. Byte level: the malformation classes on the real parser (L-malformed lemma, shared with C15). Outside: several malformed rows, jumps by more than 2 (same code path), massive mode (C10).",
 			Assume: append([]string{parseContract}, commonAssume...),
 		},
 		{
@@ -144,15 +148,15 @@ func allChecksRaw() []*Check {
 			Files: files(filesProg, []string{"gtree/c14.go"}),
 			Quick: []Job{
 				gjf("C14.reader.n4", "VerifC14Reader", 4, "C14.reader.nonnil", "C14.reader.is"),
-				gjf("C14.writer.n4", "VerifC14Writer", 4, "C14.writer.reported/text", "C14.writer.reported/encode", "C14.writer.reported/dryrun", "C14.writer.complete/text", "C14.writer.complete/encode", "C14.writer.nospurious/dryrun"),
+				gjf("C14.writer.n4", "VerifC14Writer", 4, "C14.writer.reported/text", "C14.writer.reported/encode", "C14.writer.reported/dryrun", "C14.writer.complete/text", "C14.writer.complete/encode", "C14.writer.nospurious/dryrun", "C14.writer.reported/massive", "C14.writer.nospurious/massive"),
 				gjf("C14.rootwriter.n4", "VerifC14WriterRoot", 4, "C14.rootwriter.reported/text", "C14.rootwriter.reported/encode", "C14.rootwriter.reported/dryrun", "C14.rootwriter.complete/text"),
 			},
 			Thorough: []Job{
 				gjf("C14.reader.n6", "VerifC14Reader", 6, "C14.reader.nonnil", "C14.reader.is"),
-				gjf("C14.writer.n6", "VerifC14Writer", 6, "C14.writer.reported/text", "C14.writer.reported/encode", "C14.writer.reported/dryrun", "C14.writer.complete/text", "C14.writer.complete/encode", "C14.writer.nospurious/dryrun"),
+				gjf("C14.writer.n6", "VerifC14Writer", 6, "C14.writer.reported/text", "C14.writer.reported/encode", "C14.writer.reported/dryrun", "C14.writer.complete/text", "C14.writer.complete/encode", "C14.writer.nospurious/dryrun", "C14.writer.reported/massive", "C14.writer.nospurious/massive"),
 				gjf("C14.rootwriter.n6", "VerifC14WriterRoot", 6, "C14.rootwriter.reported/text", "C14.rootwriter.reported/encode", "C14.rootwriter.reported/dryrun", "C14.rootwriter.complete/text"),
 			},
-			Bounds: "well-formed forests of N rows / programs of N nodes (quick 4, thorough 6). Reader: fails with a fresh error after k delivered rows, k symbolic in 0..N, routes iterator/non-iterator text, JSON, YAML, dry-run, walk. Writer: refuses write number j, j symbolic in 0..N (N = past the last write: never), modes text (both routes), JSON, YAML, TOML (single root), dry-run report, From-Root text (fused printer), From-Root JSON, MkdirFromRoot dry-run report on color.Output. Short writes that return a nil error violate io.Writer's contract and are not modelled. Massive mode: C11.",
+			Bounds: "well-formed forests of N rows / programs of N nodes (quick 4, thorough 6). Reader: fails with a fresh error after k delivered rows, k symbolic in 0..N, routes iterator/non-iterator text, JSON, YAML, dry-run, walk. Writer: refuses write number j, j symbolic in 0..N (N = past the last write: never), modes text (both routes), JSON, YAML, TOML (single root), dry-run report, massive text / JSON / dry-run (FIFO policy), From-Root text (fused printer), From-Root JSON, MkdirFromRoot dry-run report on color.Output. Short writes that return a nil error violate io.Writer's contract and are not modelled. More of massive mode: C11.",
 			Assume: append([]string{parseContract, pathContract, encStub, "fatih/color under NoColor (Sprint is concatenation); bufio.Writer modelled as buffer + one Write at Flush"}, commonAssume...),
 		},
 		{
@@ -161,6 +165,7 @@ func allChecksRaw() []*Check {
 			Quick: []Job{
 				{Name: "C12.empty", Pkg: "gtree", Entry: "VerifC12Empty", N: 0, FSModel: true, Expect: []string{"C12.empty.nil", "C12.empty.nothing", "C12.empty.end"}},
 				{Name: "C12.rows.1x3", Pkg: "gtree", Entry: "VerifC12Rows", N: 13, FSModel: true, RealParse: true, Expect: []string{"C12.returned", "C12.empty.nil", "C12.accepted.nonempty"}},
+				{Name: "C12.rows.2x1", Pkg: "gtree", Entry: "VerifC12Rows", N: 21, FSModel: true, RealParse: true, Expect: []string{"C12.returned", "C12.empty.nil"}},
 			},
 			Thorough: []Job{
 				{Name: "C12.empty", Pkg: "gtree", Entry: "VerifC12Empty", N: 0, FSModel: true, Expect: []string{"C12.empty.nil", "C12.empty.nothing", "C12.empty.end"}},
@@ -168,7 +173,7 @@ func allChecksRaw() []*Check {
 				{Name: "C12.rows.2x2", Pkg: "gtree", Entry: "VerifC12Rows", N: 22, FSModel: true, RealParse: true, Expect: []string{"C12.returned", "C12.empty.nil", "C12.accepted.nonempty"}},
 				{Name: "C12.rows.1x2.allbytes", Pkg: "gtree", Entry: "VerifC12Rows", N: 112, FSModel: true, RealParse: true, Expect: []string{"C12.returned", "C12.empty.nil"}},
 			},
-			Bounds: "byte level, real parser: documents of 1 row of 0..3 (quick) / 0..4 (thorough) arbitrary ASCII bytes, 2 rows of 0..2 bytes, 1 row of 0..2 bytes over all 256 values (no \\n: the scanner never delivers one), through 8 sequential entry points (text both routes, JSON, YAML, dry-run, walk, mkdir and verify on the file-system model) and 2 massive-mode ones (text, walk; FIFO policy); plus, at tree level, the empty document and 1..3 blank rows on 11 entry points (2 of them massive). A panic or an exceeded step budget (3e6 SSA instructions) on any feasible path is a violation; this is also built into every harness of every other property. Outside: longer rows / more rows at byte level (the DESIGN's 3x5 bound is out of reach: 2 rows x 3 bytes did not finish in 30 min), over-long lines (ErrTooLong only as a symbolic scanner error in C14), other massive-mode documents (C10/C11).",
+			Bounds: "byte level, real parser: documents of 1 row of 0..3 (quick) / 0..4 (thorough) arbitrary ASCII bytes, 2 rows of 0..1 (quick) / 0..2 (thorough) bytes, 1 row of 0..2 bytes over all 256 values (no \\n: the scanner never delivers one), through 8 sequential entry points (text both routes, JSON, YAML, dry-run, walk, mkdir and verify on the file-system model) and 2 massive-mode ones (text, walk; FIFO policy); plus, at tree level, the empty document and 1..3 blank rows on 11 entry points (2 of them massive). A panic or an exceeded step budget (3e6 SSA instructions) on any feasible path is a violation; this is also built into every harness of every other property. Outside: longer rows / more rows at byte level (the DESIGN's 3x5 bound is out of reach: 2 rows x 3 bytes did not finish in 30 min), over-long lines (ErrTooLong only as a symbolic scanner error in C14), other massive-mode documents (C10/C11).",
 			Assume: append([]string{fsModel, "real std strings/path/filepath/io/fs code executed on symbolic bytes (leaf intrinsics: bytealg.IndexByteString, CountString, MakeNoZero)"}, commonAssume...),
 		},
 		{
@@ -177,7 +182,7 @@ func allChecksRaw() []*Check {
 			Quick: []Job{
 				{Name: "C15.LParse.2", Pkg: "markdown", Entry: "VerifLParse", N: 2, RealParse: true, Expect: []string{"LP.accept", "LP.hierarchy", "LP.text", "LP.next", "LP.end"}},
 				{Name: "C15.LHeading.2", Pkg: "markdown", Entry: "VerifLHeading", N: 2, RealParse: true, Expect: []string{"LH.accept", "LH.root", "LH.text", "LH.next"}},
-				{Name: "C15.LMalformed.1", Pkg: "markdown", Entry: "VerifLMalformed", N: 1, RealParse: true, Expect: []string{"LM.nobullet", "LM.emptytext", "LM.badindent", "LM.mixed", "LM.blank"}},
+				{Name: "C15.LMalformed.1", Pkg: "markdown", Entry: "VerifLMalformed", N: 1, RealParse: true, Expect: []string{"LM.nobullet", "LM.emptytext", "LM.badindent", "LM.mixed", "LM.otherchar", "LM.blank"}},
 				{Name: "C15.LAny.3", Pkg: "markdown", Entry: "VerifLAny", N: 3, RealParse: true, Expect: []string{"LA.oneof", "LA.hierarchy", "LA.text", "LA.errclass"}},
 				{Name: "C15.same.3", Pkg: "gtree", Entry: "VerifC15Same", N: 3, RealParse: true, Expect: []string{"C15.canon.nil", "C15.spelling.nil", "C15.same"}},
 				{Name: "C15.same.sym2", Pkg: "gtree", Entry: "VerifC15Same", N: 102, RealParse: true, Expect: []string{"C15.canon.nil", "C15.spelling.nil", "C15.same"}},
@@ -186,13 +191,13 @@ func allChecksRaw() []*Check {
 				{Name: "C15.LParse.3.full", Pkg: "markdown", Entry: "VerifLParse", N: 103, RealParse: true, Expect: []string{"LP.accept", "LP.hierarchy", "LP.text", "LP.next", "LP.end"}},
 				{Name: "C15.LParse.2.allbytes", Pkg: "markdown", Entry: "VerifLParse", N: 12, RealParse: true, Expect: []string{"LP.accept", "LP.hierarchy", "LP.text", "LP.next", "LP.end"}},
 				{Name: "C15.LHeading.3", Pkg: "markdown", Entry: "VerifLHeading", N: 3, RealParse: true, Expect: []string{"LH.accept", "LH.root", "LH.text", "LH.next"}},
-				{Name: "C15.LMalformed.2", Pkg: "markdown", Entry: "VerifLMalformed", N: 2, RealParse: true, Expect: []string{"LM.nobullet", "LM.emptytext", "LM.badindent", "LM.mixed", "LM.blank"}},
+				{Name: "C15.LMalformed.2", Pkg: "markdown", Entry: "VerifLMalformed", N: 2, RealParse: true, Expect: []string{"LM.nobullet", "LM.emptytext", "LM.badindent", "LM.mixed", "LM.otherchar", "LM.blank"}},
 				{Name: "C15.LAny.4", Pkg: "markdown", Entry: "VerifLAny", N: 4, RealParse: true, Expect: []string{"LA.oneof", "LA.hierarchy", "LA.text", "LA.errclass"}},
 				{Name: "C15.same.4", Pkg: "gtree", Entry: "VerifC15Same", N: 4, RealParse: true, Expect: []string{"C15.canon.nil", "C15.spelling.nil", "C15.same"}},
 				{Name: "C15.same.blank3", Pkg: "gtree", Entry: "VerifC15Same", N: 13, RealParse: true, Expect: []string{"C15.canon.nil", "C15.spelling.nil", "C15.same"}},
 				{Name: "C15.same.sym2", Pkg: "gtree", Entry: "VerifC15Same", N: 102, RealParse: true, Expect: []string{"C15.canon.nil", "C15.spelling.nil", "C15.same"}},
 			},
-			Bounds: "L-parse (real Parser.Parse, one inductive step from every state an accepted prefix can leave: fresh / after a root / after root+child (unit learnt) / after root+child+root, each with and without a leading heading): notation = indent char space|tab x unit 1..4 x bullet -,*,+ per row x # roots or not; row depth 0..3; names of 2 (quick) / 3 (thorough) arbitrary ASCII bytes, 2 bytes over all 256 values (thorough); headings #..### with/without the space; malformation classes no-bullet, empty text, indentation not a multiple of the unit, mixed tabs/spaces, whitespace-only; arbitrary rows of 3/4 bytes (result/err exclusive, text non-empty). End to end (real parser + real tree code, text output): forests of 3 (quick) / 4 (thorough) rows, canonical spelling vs every member of the notation family, with a blank row at any position (thorough), with the first byte of every name symbolic for 2 rows. CRLF and the final newline are the scanner's contract (trusted). Assumed: heading names have no leading/trailing blanks and no leading '#'. Tree-level insensitivity to blank rows: C01; the splitter (massive mode): C10.",
+			Bounds: "L-parse (real Parser.Parse, one inductive step from every state an accepted prefix can leave: fresh / after a root / after root+child (unit learnt) / after root+child+root, each with and without a leading heading): notation = indent char space|tab x unit 1..4 x bullet -,*,+ per row x # roots or not; row depth 0..3; names of 2 (quick) / 3 (thorough) arbitrary ASCII bytes, 2 bytes over all 256 values (thorough); headings #..### with/without the space; malformation classes no-bullet, empty text, indentation not a multiple of the unit, tabs and spaces mixed within one row, a row indented with the other character once the document's character is known (also after a new root), whitespace-only; arbitrary rows of 3/4 bytes (result/err exclusive, text non-empty). End to end (real parser + real tree code, text output): forests of 3 (quick) / 4 (thorough) rows, canonical spelling vs every member of the notation family, with a blank row at any position (thorough), with the first byte of every name symbolic for 2 rows. CRLF and the final newline are the scanner's contract (trusted). Assumed: heading names have no leading/trailing blanks and no leading '#'. Tree-level insensitivity to blank rows: C01; the splitter (massive mode): C10.",
 			Assume: append([]string{"real std strings code executed on symbolic bytes (leaf intrinsics: bytealg.IndexByteString, CountString, MakeNoZero; 256-entry tables as ite chains)"}, commonAssume...),
 		},
 		{
@@ -261,7 +266,8 @@ func allChecksRaw() []*Check {
 			ID:    "C10",
 			Files: files(filesProg, filesVFS, []string{"gtree/c06.go", "gtree/c08.go", "gtree/c09.go", "gtree/c10.go", "gtree/c10_native.go"}),
 			Quick: []Job{
-				gjf("C10.n3.fifo", "VerifC10", 3, "C10.err/text", "C10.same/text", "C10.same/json", "C10.same/dryrun", "C10.same/walk", "C10.same/mkdir", "C10.same/verify", "C10.noleak", "C10.end"),
+				gjf("C10.n2.fifo", "VerifC10", 2, "C10.err/text", "C10.same/text", "C10.same/json", "C10.same/dryrun", "C10.same/walk", "C10.same/mkdir", "C10.same/verify", "C10.noleak", "C10.end"),
+				gjf("C10.text.n3.fifo", "VerifC10", 13, "C10.err/text", "C10.same/text", "C10.noleak", "C10.end"),
 				{Name: "C10.n2.lifo-lastsel", Pkg: "gtree", Entry: "VerifC10", N: 2, FSModel: true, Sched: "lifo-lastsel", Expect: []string{"C10.err/text", "C10.same/text", "C10.noleak", "C10.end"}},
 				{Name: "C10.text.n3.fifo-wyield", Pkg: "gtree", Entry: "VerifC10", N: 13, FSModel: true, Sched: "fifo-wyield", Expect: []string{"C10.err/text", "C10.same/text", "C10.noleak", "C10.end"}},
 				{Name: "C10.units", Pkg: "gtree", Entry: "VerifC10Units", N: 0, FSModel: true, RealParse: true, Expect: []string{"C10.err.units/same-unit", "C10.err.units/mixed-units"}},
@@ -270,16 +276,19 @@ func allChecksRaw() []*Check {
 			},
 			Thorough: []Job{
 				gjf("C10.reuse.n3", "VerifC10Reuse", 3, "C10.reuse.simple", "C10.reuse.err", "C10.reuse.same", "C10.reuse.end"),
-				gjf("C10.n4.fifo", "VerifC10", 4, "C10.err/text", "C10.same/text", "C10.same/json", "C10.same/dryrun", "C10.same/walk", "C10.same/mkdir", "C10.same/verify", "C10.noleak", "C10.end"),
-				{Name: "C10.n3.lifo", Pkg: "gtree", Entry: "VerifC10", N: 3, FSModel: true, Sched: "lifo", Expect: []string{"C10.same/text", "C10.noleak", "C10.end"}},
-				{Name: "C10.n3.fifo-lastsel", Pkg: "gtree", Entry: "VerifC10", N: 3, FSModel: true, Sched: "fifo-lastsel", Expect: []string{"C10.same/text", "C10.noleak", "C10.end"}},
-				{Name: "C10.n3.lifo-lastsel", Pkg: "gtree", Entry: "VerifC10", N: 3, FSModel: true, Sched: "lifo-lastsel", Expect: []string{"C10.same/text", "C10.noleak", "C10.end"}},
+				gjf("C10.n3.fifo", "VerifC10", 3, "C10.err/text", "C10.same/text", "C10.same/json", "C10.same/dryrun", "C10.same/walk", "C10.same/mkdir", "C10.same/verify", "C10.noleak", "C10.end"),
+				gjf("C10.text.n4.fifo", "VerifC10", 14, "C10.err/text", "C10.same/text", "C10.noleak", "C10.end"),
+				{Name: "C10.n2.lifo", Pkg: "gtree", Entry: "VerifC10", N: 2, FSModel: true, Sched: "lifo", Expect: []string{"C10.same/text", "C10.noleak", "C10.end"}},
+				{Name: "C10.n2.fifo-lastsel", Pkg: "gtree", Entry: "VerifC10", N: 2, FSModel: true, Sched: "fifo-lastsel", Expect: []string{"C10.same/text", "C10.noleak", "C10.end"}},
+				{Name: "C10.n2.lifo-lastsel", Pkg: "gtree", Entry: "VerifC10", N: 2, FSModel: true, Sched: "lifo-lastsel", Expect: []string{"C10.same/text", "C10.noleak", "C10.end"}},
+				{Name: "C10.text.n3.lifo", Pkg: "gtree", Entry: "VerifC10", N: 13, FSModel: true, Sched: "lifo", Expect: []string{"C10.same/text", "C10.noleak", "C10.end"}},
+				{Name: "C10.text.n3.lifo-lastsel", Pkg: "gtree", Entry: "VerifC10", N: 13, FSModel: true, Sched: "lifo-lastsel", Expect: []string{"C10.same/text", "C10.noleak", "C10.end"}},
 				{Name: "C10.text.n4.fifo-wyield", Pkg: "gtree", Entry: "VerifC10", N: 14, FSModel: true, Sched: "fifo-wyield", Expect: []string{"C10.err/text", "C10.same/text", "C10.noleak", "C10.end"}},
 				{Name: "C10.text.n4.lifo-wyield", Pkg: "gtree", Entry: "VerifC10", N: 14, FSModel: true, Sched: "lifo-wyield", Expect: []string{"C10.err/text", "C10.same/text", "C10.noleak", "C10.end"}},
 				{Name: "C10.units", Pkg: "gtree", Entry: "VerifC10Units", N: 0, FSModel: true, RealParse: true, Expect: []string{"C10.err.units/same-unit", "C10.err.units/mixed-units"}},
 				gjf("C10.exists", "VerifC10Exists", 0, "C10.exists.simple", "C10.exists.err", "C10.exists.fs/partial"),
 			},
-			Bounds: "documents of N rows (quick 3, thorough 4) from the family: roots as list items or # headings, children indented, one optional blank/whitespace-only row at any position (also leading), one optional malformed row (no bullet, empty text, nested two levels too deep); operations text, JSON, dry-run report, walk, mkdir and verify on the file-system model; the real pipeline (splitter, 10+10+10 workers per stage, errgroup collectors) runs under a deterministic cooperative scheduler: policies FIFO and (N=2 quick, N=3 thorough) LIFO, each with first-ready or last-ready select case; for text output additionally the write-yield policies (the running goroutine goes to the back of the run queue after every Write on the output: a cooperative stand-in for preemption between printing goroutines, which is what makes a missing spreader lock visible). Byte level: two roots whose children are indented by i and j blanks, i,j in 1..4. Pre-existing root with two roots. Worker reuse: ten concrete three-level filler roots followed by a symbolic tail of 2 (quick) / 3 (thorough) rows, because blocks are handed to the ten workers of a stage in turn and per-worker state only matters from the 11th block on. NOT decided: equality under every schedule; data races.",
+			Bounds: "documents of N rows (all operations: quick 2, thorough 3; text only: quick 3, thorough 4) from the family: roots as list items or # headings, children indented, one optional blank/whitespace-only row at any position (also leading), one optional malformed row (no bullet, empty text, nested two levels too deep); operations text, JSON or YAML records, dry-run report with an opaque extension, walk, mkdir with an opaque extension and verify on the file-system model; the real pipeline (splitter, 10+10+10 workers per stage, errgroup collectors) runs under a deterministic cooperative scheduler: policies FIFO, LIFO, each with first-ready or last-ready select case (quick: FIFO everywhere, LIFO/last-select for N=2); for text output additionally the write-yield policies (the running goroutine goes to the back of the run queue after every Write on the output: a cooperative stand-in for preemption between printing goroutines, which is what makes a missing spreader lock visible). Byte level: two roots whose children are indented by i and j blanks, i,j in 1..4. Pre-existing root with two roots. Worker reuse: ten concrete three-level filler roots followed by a symbolic tail of 2 (quick) / 3 (thorough) rows, because blocks are handed to the ten workers of a stage in turn and per-worker state only matters from the 11th block on. NOT decided: equality under every schedule; data races.",
 			Assume: append([]string{parseContract, pathContract, fsModel, encStub, "goroutines, channels, select, sync.WaitGroup/Mutex, context and errgroup are engine-native with Go semantics under a run-until-block scheduler (one interpreted goroutine runs at a time); every explored schedule is a legal Go schedule, the converse is not claimed"}, commonAssume...),
 		},
 		{
@@ -309,7 +318,7 @@ func allChecksRaw() []*Check {
 			Files: []string{"main/c16.go"},
 			Quick: []Job{
 				{Name: "C16.output", Pkg: "main", Entry: "VerifC16Output", NoNative: true, Expect: []string{"C16.wire.output", "C16.wire.output.badformat.nocall", "C16.code.output.badformat", "C16.code.output.open", "C16.code.output.exitcoder"}},
-				{Name: "C16.mkdir", Pkg: "main", Entry: "VerifC16Mkdir", NoNative: true, Expect: []string{"C16.wire.mkdir", "C16.code.mkdir.open", "C16.code.mkdir.exitcoder"}},
+				{Name: "C16.mkdir", Pkg: "main", Entry: "VerifC16Mkdir", NoNative: true, Expect: []string{"C16.wire.mkdir", "C16.wire.mkdir.nofs", "C16.code.mkdir.open", "C16.code.mkdir.exitcoder"}},
 				{Name: "C16.verify", Pkg: "main", Entry: "VerifC16Verify", NoNative: true, Expect: []string{"C16.wire.verify", "C16.code.verify.open", "C16.code.verify.exitcoder"}},
 				{Name: "C16.code", Pkg: "main", Entry: "VerifC16Code", NoNative: true, Expect: []string{"C16.code.libfail", "C16.code.success"}},
 				{Name: "C16.main", Pkg: "main", Entry: "VerifC16Main", NoNative: true, Expect: []string{"C16.main.usage", "C16.main.success", "C16.main.strayargs"}},
